@@ -158,6 +158,7 @@ type Exec struct {
 	abstractAll bool
 	inlines  map[string]bool
 	pureCalls map[string]bool
+	pureFacts map[string]bool
 	poison   []string // names of the constants standing for the entry values of scratch locations
 	exhaustOnly bool
 	errs     []string
@@ -211,7 +212,7 @@ func (e *Exec) oblige(kind, label string, reach, goal Term, pos token.Pos) {
 	parts := []Term{goal}
 	switch {
 	case e.nosplit:
-	case kind == "ensures", kind == "invariant-init", kind == "invariant-step", kind == "assert", strings.HasPrefix(kind, "requires@"):
+	case kind == "ensures", kind == "invariant-init", kind == "invariant-step", kind == "assert", kind == "cut", strings.HasPrefix(kind, "requires@"):
 		parts = e.c.conjuncts(goal)
 	}
 	for i, part := range parts {
